@@ -42,6 +42,7 @@ type hist struct {
 	lastHole       bool
 	switchFS       bool
 	focusSet       bool
+	everPut        map[string]map[string]bool // when non-nil: every value ever put per key
 	focusLo        int
 	focusHi        int
 }
@@ -300,6 +301,12 @@ func (h *hist) put(key string, vlen int) error {
 		return nil
 	})
 	h.model[key] = v
+	if h.everPut != nil {
+		if h.everPut[key] == nil {
+			h.everPut[key] = map[string]bool{}
+		}
+		h.everPut[key][v] = true
+	}
 	return h.afterStep(key)
 }
 
